@@ -92,6 +92,9 @@ enum Op {
     Inc(u8, u8, u8),
     Set(u8, u8, u8),
     Rec(u8, u8, u8),
+    /// gauge.increment(v) / gauge.decrement(v)
+    GaugeAdd(u8, u8, u8),
+    GaugeSub(u8, u8, u8),
     RegisterOnly(u8, u8, u8),
     Readout,
 }
@@ -122,6 +125,10 @@ fn ops() -> Vec<Op> {
     v.push(Op::RegisterOnly(0, 0, 0));
     v.push(Op::Set(1, 0, 3));
     v.push(Op::Set(1, 1, 7));
+    // back to exactly +0.0, by a set and by arithmetic
+    v.push(Op::Set(1, 0, 0));
+    v.push(Op::GaugeAdd(1, 1, 7));
+    v.push(Op::GaugeSub(1, 1, 7));
     v.push(Op::Rec(1, 0, 20));
     v.push(Op::Rec(1, 1, 200));
     v.push(Op::Describe(0, 0, 0));
@@ -177,6 +184,16 @@ fn apply(w: &World, m: &mut Model, op: Op, emit_zero: bool) -> Option<(String, S
         Op::Set(name, lab, v) => {
             w.rec.register_gauge(&key(name as usize, lab as usize), &md()).set(v as f64);
             m.gauges.insert((NAMES[name as usize].to_string(), lab), v as f64);
+            None
+        }
+        Op::GaugeAdd(name, lab, v) => {
+            w.rec.register_gauge(&key(name as usize, lab as usize), &md()).increment(v as f64);
+            *m.gauges.entry((NAMES[name as usize].to_string(), lab)).or_insert(0.0) += v as f64;
+            None
+        }
+        Op::GaugeSub(name, lab, v) => {
+            w.rec.register_gauge(&key(name as usize, lab as usize), &md()).decrement(v as f64);
+            *m.gauges.entry((NAMES[name as usize].to_string(), lab)).or_insert(0.0) -= v as f64;
             None
         }
         Op::Rec(name, lab, v) => {
